@@ -428,26 +428,31 @@ def pyCfg : FlatCfg PKey String :=
 /-! ## The shared-`seen` walk of `_walk_records` -/
 
 section walk
-variable {α : Type} [DecidableEq α]
+variable {α β : Type} [DecidableEq β]
 
-/-- `stack` has its top at the head; returns `(seen, emitted)` once the stack is empty, `none` when
-the fuel runs out -/
-def walk (deps : α → List α) : Nat → List α → List α → List α → Option (List α × List α)
+/-- `stack` has its top at the head (`stack.pop()` / `stack.extend(e.dependencies())`); nodes are
+deduplicated by NAME (`e._name in seen`) — two different nodes may carry one name (a `RootAlias`
+pin and the raw node it is named after).  Returns `(seen, emitted)` once the stack is empty,
+`none` when the fuel runs out. -/
+def walk (nm : α → β) (deps : α → List α) : Nat → List α → List β → List α → Option (List β × List α)
   | _, [], seen, out => some (seen, out)
   | 0, _ :: _, _, _ => none
   | f + 1, e :: stack, seen, out =>
-    if e ∈ seen then walk deps f stack seen out
-    else walk deps f ((deps e).reverse ++ stack) (e :: seen) (out ++ [e])
+    if nm e ∈ seen then walk nm deps f stack seen out
+    else walk nm deps f ((deps e).reverse ++ stack) (nm e :: seen) (out ++ [e])
 
 /-- several collections walked one after the other with one shared `seen` -/
-def walkAll (deps : α → List α) (fuel : Nat) : List α → List α → List α → Option (List α × List α)
+def walkAll (nm : α → β) (deps : α → List α) (fuel : Nat) :
+    List α → List β → List α → Option (List β × List α)
   | [], seen, out => some (seen, out)
   | r :: roots, seen, out =>
-    match walk deps fuel [r] seen out with
+    match walk nm deps fuel [r] seen out with
     | none => none
-    | some (seen', out') => walkAll deps fuel roots seen' out'
+    | some (seen', out') => walkAll nm deps fuel roots seen' out'
 
-def DepClosed (deps : α → List α) (s : List α) : Prop := ∀ e ∈ s, ∀ d ∈ deps e, d ∈ s
+/-- every dependency of every emitted node has a seen name -/
+def NameClosed (nm : α → β) (deps : α → List α) (out : List α) (seen : List β) : Prop :=
+  ∀ e ∈ out, ∀ d ∈ deps e, nm d ∈ seen
 
 end walk
 
